@@ -108,6 +108,23 @@ def tcpAccept (cfg : Cfg) (alpn : List Alpn) (sni : Option String) : Option Meta
     | some m => if m.protocol == .h3 then none else some m
     | none => none
 
+/-- QUIC (`quic_multiplexer.rs`): the QUIC configuration offers `h3` only, the certificate callback
+and `finalize_established_connection` call `select` with the fixed list `[h3]`; when that fails
+(no SNI, an SNI designating no entry, HTTP/3 not permitted) the connection keeps the *bootstrap*
+meta: first main host, tunnel channel, HTTP/3 (`get_quic_connection_bootstrap_meta`; the main hosts
+are a hash map there, so "first" is only determined when there is one main host) -/
+def bootstrap (cfg : Cfg) : Option Meta :=
+  cfg.main.head?.map fun m => ⟨m, .h3, .tunnel, (.tunnel, m), none⟩
+
+def quicAccept (cfg : Cfg) (sni : Option String) : Option Meta :=
+  match sni with
+  | none => bootstrap cfg
+  | some s =>
+    if s.isEmpty then bootstrap cfg
+    else match select cfg [some .h3] s with
+      | some m => some m
+      | none => bootstrap cfg
+
 /-! ### reload -/
 
 /-- `TlsHostsSettings::validate` as far as names go: main hosts non-empty, host names unique
